@@ -123,6 +123,26 @@ pub fn gen(tier: &str, seed: u64, out: &mut dyn FnMut(Value)) {
             }));
         }
     }
+    // a field compared with itself: equal to itself unless it is NaN; missing is an error like any other missing field
+    for is in [false, true] {
+        for path in [vec!["x".to_string()], vec!["y".to_string(), "z w".to_string()]] {
+            let r = SRule {
+                name: "r".into(),
+                ops: vec![("$a".into(), Operand::Indirect { a: path.clone(), b: path.clone(), is })],
+                cond: Some(Form::V("$a".into())),
+                ..Default::default()
+            };
+            let rules = vec![r];
+            let mut evs: Vec<DynEvent> = values.iter().map(|v| DynEvent { source: "s".into(), id: 1, fields: vec![(path.clone(), v.clone())] }).collect();
+            evs.push(DynEvent { source: "s".into(), id: 1, fields: vec![] });
+            out(json!({
+                "op": "scenario", "ext": ext_for(&rules, &evs),
+                "rules": rules.iter().map(|r| r.to_json(&mut rng)).collect::<Vec<_>>(),
+                "events": evs.iter().map(event_to_json).collect::<Vec<_>>(),
+                "tag": "a field compared with itself", "nt": true,
+            }));
+        }
+    }
     // indirect: every pair of field values, and missing fields
     let mut evs = vec![];
     let step = if tier == "thorough" { 1 } else { 3 };
